@@ -64,6 +64,8 @@ var rsaKeys = []int{0, 1, 2}
 
 type fin func(resp []byte) (tokens [][]byte, err error)
 
+const longKeyIdx = 9
+
 var siblings sync.Map // RSA key index -> *rsa.PrivateKey
 
 func siblingOf(idx int) *rsa.PrivateKey {
@@ -140,7 +142,15 @@ func setup(c Case) (finalize fin, resp []byte, verify func(tokens [][]byte) erro
 		}
 		return finalize, r, verify, nil
 	case 2:
-		wa, wb := px.NewW2(rsaKeys[c.KeyA]), px.NewW2(rsaKeys[c.KeyB])
+		var wa, wb *px.W2
+		if c.KeyA == longKeyIdx {
+			// an issuer key of 3072 bits: the token type cannot carry its signatures; whatever the client
+			// does with the issuer's honest response, it must not hand out a token that does not verify
+			wa = px.NewW2Key(px.LongRSAKey())
+			wb = wa
+		} else {
+			wa, wb = px.NewW2(rsaKeys[c.KeyA]), px.NewW2(rsaKeys[c.KeyB])
+		}
 		var blind, salt []byte
 		if c.Salt > 0 {
 			blind = mc.Fill(seedv, "c02-rsa-blind", 255)
@@ -159,9 +169,20 @@ func setup(c Case) (finalize fin, resp []byte, verify func(tokens [][]byte) erro
 		if _, e := wa.Create(mc.Fill(seedv, "c02-decoy-chal", 40), mc.Fill(seedv, "c02-decoy-nonce", 32), nil, nil); e != nil {
 			return nil, nil, nil, e
 		}
-		r, se := wb.EvaluateWire(stj.Request().Marshal())
-		if se != nil {
-			return nil, nil, nil, se
+		var r []byte
+		if c.KeyA == longKeyIdx {
+			// the wire format cannot carry the longer blinded message: the request is handed over as a struct
+			rr, e := wb.Issuer.Evaluate(stj.Request())
+			if e != nil {
+				return nil, nil, nil, e
+			}
+			r = rr
+		} else {
+			rr, se := wb.EvaluateWire(stj.Request().Marshal())
+			if se != nil {
+				return nil, nil, nil, se
+			}
+			r = rr
 		}
 		finalize = func(resp []byte) ([][]byte, error) {
 			t, err := sti.FinalizeToken(resp)
@@ -413,7 +434,7 @@ func run(c Case) (string, *mc.Viol) {
 	if p := mc.Catch(func() { toks, ferr = finalize(in) }); p != "" {
 		return "panic", &mc.Viol{Sig: fmt.Sprintf("type%d finalization panics (%s)", c.T, c.Mut), What: fmt.Sprintf("%s: %s", c.label(), p)}
 	}
-	honest := c.Mut == "none" && c.KeyA == c.KeyB && c.ReqI == c.ReqJ && (c.Salt == 0 || saltLens[c.Salt-1] == 48)
+	honest := c.Mut == "none" && c.KeyA == c.KeyB && c.ReqI == c.ReqJ && (c.Salt == 0 || saltLens[c.Salt-1] == 48) && c.KeyA != longKeyIdx
 	if (c.Mut == "elems" || c.Mut == "reeval") && isIdentity(c.Map, c.N) && c.KeyA == c.KeyB && c.ReqI == c.ReqJ {
 		honest = true
 	}
@@ -535,6 +556,8 @@ func main() {
 			}
 		}
 	}
+	// type 2 with an issuer key longer than the token type allows
+	cases = append(cases, Case{T: 2, KeyA: longKeyIdx, KeyB: longKeyIdx, ReqI: 0, ReqJ: 0, Mut: "none"}, Case{T: 2, KeyA: longKeyIdx, KeyB: longKeyIdx, ReqI: 1, ReqJ: 1, Mut: "none"})
 	// type 2: caller-supplied salts of every boundary length (the token type fixes sLen = 48): the
 	// honest response must yield a standard-verifiable token or an error
 	for a := 0; a < K; a++ {
